@@ -442,6 +442,28 @@ func main() {
 	run.Eval(pairs)
 	run.Count("pairs", pairs)
 
+	// the text-keeping clause at its edge: receivers that are empty as sets but not as text, and
+	// arguments that are empty in every way a scope can be
+	{
+		blanks := []string{"", " ", "  ", "\t", "\n", " \r\n ", "\t \t"}
+		empties := map[string]ociauth.Scope{"zero": {}, "NewScope()": ociauth.NewScope(), "ParseScope(\"\")": ociauth.ParseScope("")}
+		for _, bl := range blanks {
+			empties[fmt.Sprintf("ParseScope(%q)", bl)] = ociauth.ParseScope(bl)
+		}
+		receivers := append([]string{" repository:a:pull ", "repository:a:pull  repository:a:pull", "\tfoo\n"}, blanks...)
+		for _, rt := range receivers {
+			rcv := ociauth.ParseScope(rt)
+			for an, arg := range empties {
+				run.Eval(1)
+				run.Count("union_of_blank_texts", 1)
+				un := rcv.Union(arg)
+				if un.String() != rcv.String() || !un.Equal(rcv) {
+					c.bad("union-keeps-text/blank", fmt.Sprintf("ParseScope(%q).Union(%s) adds nothing but prints %q; the receiver prints %q", rt, an, un.String(), rcv.String()), map[string]any{"receiver_text": rt, "argument": an})
+				}
+			}
+		}
+	}
+
 	// large universe, arbitrary field bytes
 	nr := run.N(60000, 1000000)
 	rng := run.Rand(99)
